@@ -34,7 +34,9 @@ ASSUMPTIONS = ["byte buffers passed in are valid (len <= capacity); on_codepoint
                "aws_hex_compute_decoded_len(SIZE_MAX) reports overflow although the result 2^63 fits (no such input can exist)"]
 RULE = ("structured op files: every length 0..200 round trip, every byte value at every position of the final quantum of valid "
         "encodings, padding variants, all capacities 0..need+1 with pre-existing out.len, size_t overflow boundaries, UTF-8 boundary "
-        "code points / overlongs / surrogates / truncations and all chunkings of short texts; non-trivial = case contains a "
+        "code points / overlongs / surrogates / truncations and all chunkings of short texts, each with and without an on_codepoint "
+        "callback (u8all: all chunkings of all strings of length <= 4 (thorough 5) over an alphabet of boundary bytes, and "
+        "lead|ASCII|continuation texts cut at the boundary); non-trivial = case contains a "
         "codec call on non-empty input")
 NOT_PROVED = []
 
@@ -329,6 +331,59 @@ def utf8_cases(rng, tier):
     return cases
 
 
+SMALL_ALPHABET = [0x00, 0x41, 0x7F, 0x80, 0xBF, 0xC2, 0xE0, 0xED, 0xF0, 0xF4]
+MORE_ALPHABET = [0x8F, 0x90, 0x9F, 0xA0, 0xC0, 0xF5]
+PARTIALS = [b"\xc2", b"\xdf", b"\xe0", b"\xe0\xa0", b"\xe1\x80", b"\xed", b"\xed\x9f", b"\xef\xbf", b"\xf0", b"\xf0\x90", b"\xf0\x90\x80",
+            b"\xf4", b"\xf4\x8f", b"\xf4\x8f\xbf", b"\xf1\x80\x80"]
+
+
+def utf8_boundary_cases(rng, tier):
+    """texts whose (in)validity spans a chunk boundary, and small-scope exhaustive enumeration: `u8all x` makes the harness run
+    EVERY chunking of x, with and without an on_codepoint callback, and compare each run with the one-piece result"""
+    ops = []
+    # all byte strings over a small alphabet of interesting bytes
+    alpha, maxlen = (SMALL_ALPHABET, 4) if tier == "quick" else (SMALL_ALPHABET + MORE_ALPHABET, 5)
+    for n in range(0, maxlen + 1):
+        for t in itertools.product(alpha, repeat=n):
+            ops.append(f"u8all {hx(bytes(t))}")
+    if tier == "quick":      # a slice of the next length / wider alphabet
+        for _ in range(3000):
+            ops.append(f"u8all {hx(bytes(rng.choice(SMALL_ALPHABET + MORE_ALPHABET) for _ in range(rng.choice([5, 5, 6, 7]))))}")
+    # lead byte(s) | ASCII | continuation(s): invalid in one piece, and must be in every chunking
+    seqs = []
+    for part in PARTIALS:
+        need = {0xC: 1, 0xD: 1, 0xE: 2, 0xF: 3}[part[0] >> 4] - (len(part) - 1)
+        for asc in (b"A", b"\x00", b"\x7f", b"AB", b"A\x7f\x00"):
+            for conts in (bytes([0x80 + rng.randrange(64) for _ in range(need)]), b"\xa3" * need, b"\xbf" * (need + 1), b""):
+                for tail in (b"", b"z", b"\xc3\xa9"):
+                    seqs.append((part, asc, conts, tail))
+    if tier == "quick":
+        seqs = rng.sample(seqs, 400)
+    for part, asc, conts, tail in seqs:
+        t = part + asc + conts + tail
+        if len(t) <= 12:
+            ops.append(f"u8all {hx(t)}")
+        ops.append(f"u8one {hx(t)}")
+        ops.append(f"u8 {hx(part)} {hx(asc + conts + tail)}")
+        ops.append(f"u8 {hx(part)} {hx(asc)} {hx(conts + tail)}")
+        ops.append(f"u8 {hx(part[:1])} {hx(part[1:])} - {hx(asc[:1])} {hx(asc[1:] + conts)} {hx(tail)}")
+        ops.append(f"u8 {hx(part)} {hx(conts + asc + tail)}")          # the valid order, cut at the same place
+    cases = chunked(ops, {"fam": "utf8-boundary"}, 150)
+    # the same through persistent decoders (both modes), finalize between texts
+    for _ in range(100 if tier == "quick" else 1500):
+        seq = ["u8new"]
+        for _ in range(rng.randint(2, 6)):
+            part, asc = rng.choice(PARTIALS), rng.choice([b"A", b"\x00", b"\x7f~"])
+            need = {0xC: 1, 0xD: 1, 0xE: 2, 0xF: 3}[part[0] >> 4] - (len(part) - 1)
+            conts = bytes([0x80 + rng.randrange(64) for _ in range(need)])
+            order = rng.choice([(part, asc + conts), (part, asc, conts), (part, conts + asc), (part, conts, asc), (asc, part, conts)])
+            for c in order:
+                seq.append(f"u8upd {hx(c)}")
+            seq.append(rng.choice(["u8fin", "u8fin", "u8fin", "u8reset"]))
+        cases.append(Case(seq, {"fam": "utf8-boundary-reuse"}))
+    return cases
+
+
 def random_mix(rng, tier):
     """random valid / near-valid base64 and hex texts of random length"""
     ops = []
@@ -362,6 +417,7 @@ def gen_cases(rng, tier):
     cases += hex_bytes(rng, tier)
     cases += final_quantum(rng, tier)
     cases += utf8_cases(rng, tier)
+    cases += utf8_boundary_cases(rng, tier)
     cases += random_mix(rng, tier)
     return cases
 
@@ -474,7 +530,7 @@ def oracle(case, lines):
         if not same or not same[0].endswith("same=1"):
             errs.append(f"{op[:80]}: portable and vector builds differ: " + " | ".join(P)[:300])
         if any("MONITOR" in l for l in P):
-            errs.append(f"{op[:80]}: " + [l for l in P if "MONITOR" in l][0])
+            errs.insert(0, f"{op[:80]}: " + [l for l in P if "MONITOR" in l][0])
         per = [l for l in P if " same=" not in l and "MONITOR" not in l]
         for l in per:
             f = _fields(l)
@@ -540,14 +596,17 @@ def oracle(case, lines):
                     errs.append(f"{c}: call with impossible sizes succeeded")
                 if f.get("len") != str(_size(t[2])):
                     errs.append(f"{c}: failed call changed out.len")
-            elif name in ("u8", "u8one"):
+            elif name in ("u8", "u8one", "u8all"):
                 bs = b"".join(unhx(p) for p in t[1:])
                 ok, cps = utf8_ref(bs)
                 wantcps = ",".join("%x" % cp for cp in cps) or "-"
+                mode = "without callback" if "nocb" in f else "with callback"
                 if (rc == "OK") != ok:
-                    errs.append(f"{c}: verdict {rc} but reference validity is {ok}")
-                if f.get("cps") != wantcps:
+                    errs.append(f"{c}: verdict {rc} ({mode}) but reference validity of the whole text is {ok}")
+                if "nocb" not in f and f.get("cps") != wantcps:
                     errs.append(f"{c}: code points {f.get('cps')} vs reference {wantcps}")
+                if name == "u8all" and f.get("chunkdep") != "0":
+                    errs.append(f"{c}: result ({mode}) depends on how the text is chunked")
             elif name == "u8upd":
                 pass
         # reuse sequences: verdict at finalize must be that of the bytes since the last finalize/reset
@@ -612,7 +671,8 @@ MANIFEST = dict(
     text=("Lean 4 theorems over a model of the portable base64 / hex / UTF-8 code of source/encoding.c whose tables are "
           "regenerated from the source on every run: encode = RFC 4648 reference encoder (alphabet as a literal), decode∘encode = id, "
           "decode accepts exactly the canonical encodings and reports exactly the bytes it stored, length functions exact or "
-          "overflow, hex lower-case / odd-length rule / round trip, UTF-8 verdict and code points independent of chunking "
+          "overflow, hex lower-case / odd-length rule / round trip, UTF-8 verdict and code points independent of chunking, with and "
+          "without an on_codepoint callback "
           "(and equal to RFC 3629 minus the U+10FFFF bound). Tied to /repo by a correspondence run of the compiled model against "
           "two builds of encoding.c in one binary (portable, and vector = AVX2 via cpuid) with canary-measured writes, "
           "plus a direct oracle using Python's base64/binascii."),
